@@ -96,8 +96,36 @@ pub fn jaxable(f: &mut FactSet) {
     f.version = (f.version.0 % 10_000, f.version.1 % 100, f.version.2 % 100);
     // a quarter of the fact sets carries no release version: half of those are rendered as an obo
     // file without any header block (the file starts with its first stanza)
-    if f.content_hash() % 4 == 0 {
+    let h = f.content_hash();
+    if h % 4 == 0 {
         f.version = (0, 0, 0);
+    }
+    // blanks at the ends of a name belong to the name: hp.obo keeps everything after "name: ", the
+    // disease name is a middle column of phenotype.hpoa (gene symbols stay as they are: the symbol is
+    // the last column of some gene files). A third of the fact sets decorates a quarter of its names.
+    if h % 3 == 1 {
+        let deco = |s: &str, id: u32| -> String {
+            match (id / 4) % 6 {
+                0 => format!(" {s}"),
+                1 => format!("{s} "),
+                2 => format!("  {s}  "),
+                3 => format!("\u{a0}{s}\u{3000}"),
+                4 => format!("{s}\u{2003}"),
+                _ => format!(" {s}\u{a0} "),
+            }
+        };
+        for t in &mut f.terms {
+            if t.id % 4 == 1 && t.id != 1 && !t.name.is_empty() {
+                t.name = deco(&t.name, t.id);
+            }
+        }
+        for k in 1..3 {
+            for r in &mut f.recs[k] {
+                if r.id % 4 == 2 && !r.name.is_empty() {
+                    r.name = deco(&r.name, r.id);
+                }
+            }
+        }
     }
 }
 
